@@ -20,6 +20,23 @@ CLAIMED = {
             "trusted: TLC, the JSON projection harness/abstraction.py, FA.tla's definitions (cross-checked by "
             "Lemmas); bounds: <= 6 states, words <= 4",
             "TLA+ models (TLC exhaustive) + TLC trace validation of recorded calls"),
+    "C03": ("5/C03",
+            "TLC checks the model Subset (nfa_to_dfa as a LIFO worklist over subsets; all NFA(2,{a,b}) with epsilon, "
+            "NFA(3,{a}) in thorough): valid total DFA, initial = closure, all reachable, exact equivalence "
+            "(subset-product, all word lengths); every real nfa_to_dfa result (exhaustive NFA(2,{a,b}) + random NFAs "
+            "incl. empty alphabet and names that are substrings of each other) is judged by TLC against the same "
+            "definitions.",
+            "trusted: TLC, harness/abstraction.py, FA.tla; DFA state labels parsed as printed state sets; <= 6 states",
+            "TLA+ model (TLC exhaustive) + TLC trace validation of recorded calls"),
+    "C04": ("5/C04",
+            "TLC checks three models written like the code - Hopcroft (every splitter pop order, stale splitter kept), "
+            "Quotient (first-fit regrouping with arbitrary element order / representative), TableFill (every state "
+            "order, in-place sweeps, assembly) - over all DFA(3,{a,b}) (DFA(4,*) in thorough): final partition = "
+            "Myhill-Nerode partition, result valid/equivalent/pairwise distinguishable/count within bounds, input "
+            "unchanged, termination.  Every real result of the three minimisers on the same universe (seven naming "
+            "schemes, several hash seeds) + random DFAs is judged by TLC against FA.tla.",
+            "trusted: TLC, harness/abstraction.py, FA.tla; <= 7 states; one recorded finding (names with commas)",
+            "TLA+ models with nondeterministic set order (TLC exhaustive) + TLC trace validation of recorded calls"),
 }
 
 REASON_TODO = "check not built yet (work in progress; see DESIGN.md section 5)"
